@@ -70,7 +70,13 @@ def main() -> None:
         g = (MacroGen if rr.random() < 0.3 else Gen)(rr, Cfg(max_depth=2, max_block=3, max_routines=2))
         texts.append(print_prog(g.macro_program(1)["flat"] if isinstance(g, MacroGen) else g.program()))
     ssb_cases, _ = gen_cases(run.seed, 60 if q else 400, 40 if q else 300, 60 if q else 400, "C12")
-    pool = [["compile", t] for t in texts] + [["compile", "def 0 {\n    jump @nowhere;\n}\n"], ["compile", "def 0 {"]] + \
+    # sources with syntax errors and statically invalid ones run next to valid ones (a quarter of the compile calls)
+    broken = []
+    for j, t in enumerate(texts[: len(texts) // 3]):
+        k = t.find(")")
+        broken.append(t[:k] + t[k + 1:] if k >= 0 and j % 2 == 0 else t + "\n}")
+    pool = [["compile", t] for t in texts] + [["compile", t] for t in broken] + \
+        [["compile", "def 0 {\n    jump @nowhere;\n}\n"], ["compile", "def 0 {"]] + \
         [["decompile", c.ops, c.infos, c.coros] for c in ssb_cases]
     jobs = []
     for j in range(24 if q else 300):
